@@ -312,18 +312,19 @@ CLAIMED['C03'] = dict(
          'dropped, step_until_terminated returned), C03_raising_sync_step_excepted, C03_failing_callback_excepted, '
          'C03_late_failing_callback_changes_nothing; C03_swallowed_exceptions_change_nothing (listeners, cleanups: all run, nothing '
          'propagates), C03_construction_fault_propagates, C03_output_hook_fault. Kept from before: the complete finite case space of one '
-         'transition (C03_hook_fault_excepted, …). NOT proved: that the stepping task returns after a hook fault — the statement is '
-         'false (C03_witness_stepper_blocked_after_exit_hook_fault); on every case of the harness it is decided by the correspondence '
-         'and the monitor. Every case of the fault enumeration on the real code (every hook x occurrence x variant x scenario, listeners, '
+         'transition (C03_hook_fault_excepted, …). C03_stepper_returns_after_hook_fault_partial (the stepping task returns normally after a fault in '
+         'any of ten transition hooks, for every program, plan and history; from the linking invariant Inv10 carried through every twin, '
+         'C03_hook_fault_never_reaches_the_stepping_task), C03_stepper_returns_configuration. NOT proved: the same for on_terminated / '
+         'on_close (def C03_stepper_returns_after_hook_fault; no counterexample in an exhaustive bounded search; decided on every '
+         'case of the harness by the correspondence and the monitor). Every case of the fault enumeration on the real code (every hook x occurrence x variant x scenario, listeners, '
          'cleanups, call_soon, steps, output hooks, construction, requests issued by listeners) is compared with the model after every op.',
     note='Modelled, not verified: Process.step / pause / play / kill / fail / transition_to / transition_failed / on_terminated / close / '
          '_do_pause / CancellableAction.run / call_with_super_check with user overrides of every hook (hand-written twins of '
          'PM/Listener.lean, compared op by op with the real run of every case); EventHelper.fire_event, the cleanup loop, '
          'StateMachineMeta.__call__, Process.out as small models. That the twins agree with PM/Listener.lean while the fault has not fired '
-         'is tested, not proved. Known finding F18 is reported as KNOWN-FINDING, any other failure is a violation. Three further '
-         'defects are recorded as Lean witnesses and in DESIGN.md (6/C03), outside the enumeration: a pause-hook fault of a superseded '
-         'pause action escapes into the stepping task, call_with_super_check is not exception-safe, fail() with a raising '
-         'on_exit_waiting leaves the stepping task blocked.',
+         'is tested, not proved. Known finding F18 is reported as KNOWN-FINDING, any other failure is a violation. The three '
+         'defects this model exposed (F28 superseded pause action, F29 call_with_super_check, F30 failed exit hook) are repaired '
+         '(e94edb5, 6c8055d, a130f23); the model follows the repaired code and their cases are part of the enumeration.',
     technique='Lean 4 invariant proof over all histories of a process-control model with one injected fault (one lemma per model '
               'function, induction over events) + exhaustive case proofs over the transition model + fault enumeration on the real code '
               'compared op by op with the model',
